@@ -116,6 +116,13 @@ def gen(name):
 def _(rnd, g, tier):
     ns, nf = shape2(rnd, 2, big=(tier == "thorough" and rnd.random() < 0.03))
     im = img_f32(g, ns, nf, rnd.choice([0, 1, 2]))
+    if rnd.random() < 0.008:
+        # more than 16384 / 32768 provisional labels at the native table size: the label table grows once / twice
+        ns, nf = rnd.choice([(260, 260), (366, 366)])
+        im = np.zeros((ns, nf), np.float32)
+        im[::2, ::2] = 10
+        return ({"data": L(im), "labels": [ns, nf], "threshold": 5.0, "verbose": 0, "con8": 1, "ns": ns, "nf": nf, "_native_table": 1},
+                {"data": "in", "labels": "out"}, {"labels": "all"})
     th = rnd.choice([0.0, 1.0, 2.0, 5.0, 50.0, float(im[rnd.randrange(ns), rnd.randrange(nf)]), -1.0, 1000.0])
     return ({"data": L(im), "labels": [ns, nf], "threshold": th, "verbose": rnd.choice([0, 0, 0, 1]), "con8": rnd.choice([0, 1, 1]),
              "ns": ns, "nf": nf}, {"data": "in", "labels": "out"}, {"labels": "all"})
@@ -704,6 +711,8 @@ class C20(object):
         g = np.random.default_rng(rnd.getrandbits(48))
         vals, roles, promise = GEN[name](rnd, g, ctx.tier)
         cfg = enginea.draw_cfg(rnd, max_team=32)
+        if vals.pop("_native_table", None):
+            cfg["dset_cap"], cfg["strategy"], cfg["quantum"] = 0, "rtc", 50
         desc = {"entry": name, "vals": vals, "roles": roles, "promise": promise, "cfg": cfg,
                 "gstyle": rnd.choice([0, 0, 1])}
         desc["f2py_route"] = rnd.random() < 0.3
